@@ -1,5 +1,16 @@
 // sstable stream (included into c15.rs)
 
+/// Records a violation, but at most 3 witnesses per signature per worker thread, so that a
+/// frequently hit (known) finding cannot exhaust the report's violation capacity.
+fn viol(rep: &mut Report, sig: impl Into<String>, detail: Value) {
+    let sig = sig.into();
+    if rep.violations.iter().filter(|v| v.sig == sig).count() < 3 {
+        rep.violation(sig, detail);
+    } else {
+        rep.count(&format!("repeats_not_recorded:{sig}"), 1);
+    }
+}
+
 struct Fails {
     v: Vec<(String, Value)>,
 }
@@ -262,7 +273,7 @@ where T::Value: PartialEq + Debug + Clone {
     let bytes = match build_sst::<T>(&keys, &vals, block_len) {
         Ok(b) => b,
         Err(e) => {
-            rep.violation("sst:api-error:build", json!({"error": e, "witness": dict_witness(&keys, &info)}));
+            viol(rep, "sst:api-error:build", json!({"error": e, "witness": dict_witness(&keys, &info)}));
             return;
         }
     };
@@ -270,7 +281,7 @@ where T::Value: PartialEq + Debug + Clone {
     let dict = match open_sst::<T>(bytes, rng) {
         Ok(d) => d,
         Err(e) => {
-            rep.violation("sst:api-error:open", json!({"error": e.to_string(), "witness": dict_witness(&keys, &info)}));
+            viol(rep, "sst:api-error:open", json!({"error": e.to_string(), "witness": dict_witness(&keys, &info)}));
             return;
         }
     };
@@ -595,7 +606,7 @@ where T::Value: PartialEq + Debug + Clone {
             "automata": autos.iter().take(3).map(|a| a.describe()).collect::<Vec<_>>()}));
     }
     for (sig, d) in fails.v {
-        rep.violation(sig, json!({"detail": d, "witness": dict_witness(&keys, &info)}));
+        viol(rep, sig, json!({"detail": d, "witness": dict_witness(&keys, &info)}));
     }
 }
 
